@@ -22,7 +22,7 @@ SCENARIOS = {
     "C11": ["ids", "end_vs_observers"],
     "C14": ["dd_mt"],
     "C15": ["dd_mt"],
-    "C13": ["deadletters", "blocking", "end_vs_observers", "ask_vs_end"],
+    "C13": ["deadletters", "blocking", "end_vs_observers", "ask_vs_end", "blocking_ask_vs_end"],
 }
 # pre-emption probability per basic block; 0 = a thread runs until it blocks or yields (long uninterrupted stretches:
 # "the actor replies, stops and closes its mailbox before the woken caller runs" needs that)
@@ -102,6 +102,10 @@ def run_batch(prop, scenarios, n_runs, seed):
         mseed = (seed + i * 101) % (1 << 31)
         # the id-allocation window is a handful of instructions: pre-empt much more often there
         rates = ["0.1", "0.3", "0.5"] if sc in ("ids", "dd_mt") else RATES
+        if sc in ("ask_vs_end", "blocking_ask_vs_end"):
+            # both regimes matter here: pre-emption inside the sender's reserve | push window, and no pre-emption at
+            # all (the actor replies, ends and closes its mailbox before the woken caller gets to run)
+            rates = ["0", "0.01", "0", "0.2", "0", "0.05"]
         # the rate changes with every full pass over the scenario list, so every scenario meets every rate
         jobs.append((sc, wseed, mseed, rates[(i // len(scenarios)) % len(rates)]))
     results = []
@@ -148,6 +152,8 @@ def m_part(prop, tier, seed):
     """Thread-level clauses of an S-checked property (C11, C13): a few Miri executions. Returns
     (violations [(prop, sig, text, replay)], stats)."""
     n = 12 if tier == "quick" else 240
+    if prop == "C13":
+        n = 20 if tier == "quick" else 400
     if prop in ("C01", "C02", "C06"):
         n = 8 if tier == "quick" else 160
     if prop == "C03":
@@ -165,7 +171,7 @@ def m_part(prop, tier, seed):
 
 def run(prop, tier, seed):
     t0 = time.time()
-    n = 80 if tier == "quick" else 2000
+    n = 99 if tier == "quick" else 2200
     res = run_batch("C17", SCENARIOS["C17"], n, seed)
     viol, stats = summarize("C17", res)
     wall = time.time() - t0
